@@ -77,7 +77,12 @@ def run_case(case):
                "crc": case["crc"], "fs": "mem", "check_limit": 3}
         with World(cfg) as w:
             ep = w.S if case["side"] == "S" else w.D
-            ok = prep.src_to(w, case["step"]) if case["side"] == "S" else prep.dst_to(w, case["step"])
+            try:
+                ok = prep.src_to(w, case["step"]) if case["side"] == "S" else prep.dst_to(w, case["step"])
+            except Exception as e:  # noqa: BLE001  (the scenario prefix uses only well-formed PDUs of the running transaction)
+                ex = w.log.of("exc")
+                return {"viol": [{"clause": "well-formed-pdu-of-the-transaction-raised-internal-error", "etype": type(e).__name__, "msg": str(e)[:120],
+                                  "frames": ex[-1]["frames"] if ex else None, "case": case}], "sig": case, "obs": obs}
             if not ok:
                 obs["prep_failed"] = 1
                 return {"viol": [{"clause": "harness-could-not-prepare-step", "case": case, "step_now": ep.h.step.name}], "sig": None, "obs": obs}
